@@ -166,7 +166,8 @@ class Engine:
             sol = z3.Solver()
             sol.set("timeout", self.feas_timeout)
             for a in self.axioms:
-                sol.add(a)
+                if not _has_quantifier(a):      # quantified background axioms are left to the final obligations
+                    sol.add(a)
             for a in str_axioms():
                 sol.add(a)
             inc = self._inc = {"solver": sol, "stack": [], "nax": nax}
@@ -987,6 +988,15 @@ class Engine:
             if self.feasible(sb):
                 yield from self._for_unrolled(node, sb, items, i + 1)
             return
+        ordn = getattr(node, "_loop_ordinal", None)
+        if ordn is not None and (st.frame.fname, ordn) in self.loops:
+            # an unrolled loop that has a spec (its sequence happened to be concrete here): inner invariants may
+            # still refer to its index / sequence
+            try:
+                st.frame.vars[f"_loop{ordn}_seq"] = self.B.as_sseq(self, st, list(items))
+                st.frame.vars[f"_loop{ordn}_i"] = i
+            except Unsupported:
+                pass
         for s1, out in self.assign(node.target, items[i], st):
             if out is not NORMAL:
                 yield s1, out
@@ -1022,6 +1032,9 @@ class Engine:
         self._havoc(node, spec, s)
         i = Int.fresh("_i")
         s.assume(i.z >= 0, i.z <= seq.n)
+        # enclosing-loop indices stay visible to inner invariants as L._loop<k>_i / L._loop<k>_seq
+        s.frame.vars[f"_loop{node._loop_ordinal}_i"] = i
+        s.frame.vars[f"_loop{node._loop_ordinal}_seq"] = seq
         self._assume_inv(spec, s, {"_i": i, "_seq": seq, "_pre": pre})
         for s1, more in self.branch(s, i.z < seq.n, f"for{self.line(s, node)}"):
             if more:
@@ -1546,7 +1559,17 @@ class Engine:
             t = f.selfv.t
             if f.name in t.methods:
                 self.assumed.add(f"{t.name}.{f.name}")
-                yield from t.methods[f.name](self, st, f.selfv, list(args), kwargs)
+
+                def forced_m(i, s0, acc):
+                    if i == len(args):
+                        yield from t.methods[f.name](self, s0, f.selfv, acc, kwargs)
+                        return
+                    if isinstance(args[i], SUnion):
+                        for s1, a in self.force(s0, args[i]):
+                            yield from forced_m(i + 1, s1, acc + [a])
+                    else:
+                        yield from forced_m(i + 1, s0, acc + [args[i]])
+                yield from forced_m(0, st, [])
                 return
             argTs, resT = t.observers[f.name]
 
